@@ -4,12 +4,13 @@
 //
 // Edit entry points (enumerated from the source: everything that takes a parsed
 // ContentInfoSignedData / ContentInfo and emits it again):
-//   rt         pkcs7.Unmarshal -> (*ContentInfoSignedData).Marshal          (timestampcache, appmanifest.AddTimestamp, vsix)
-//   detach     pkcs7.Unmarshal -> Detach -> Marshal                          (csblob, xar, signjar)
-//   embed-ts   pkcs9.AddStampToSignedData(si, parsed token) -> Marshal        (the token is emitted inside an attribute)
-//   embed-spc  pkcs9.AddStampToSignedAuthenticode(si, parsed token) -> Marshal
-//   cat        SignatureBuilder.SetContentInfo(parsed.ContentInfo) -> Sign -> pkcs9.TimestampAndMarshal with a
-//              timestamper that returns a parsed foreign token                (signers/cat, authenticode)
+//
+//	rt         pkcs7.Unmarshal -> (*ContentInfoSignedData).Marshal          (timestampcache, appmanifest.AddTimestamp, vsix)
+//	detach     pkcs7.Unmarshal -> Detach -> Marshal                          (csblob, xar, signjar)
+//	embed-ts   pkcs9.AddStampToSignedData(si, parsed token) -> Marshal        (the token is emitted inside an attribute)
+//	embed-spc  pkcs9.AddStampToSignedAuthenticode(si, parsed token) -> Marshal
+//	cat        SignatureBuilder.SetContentInfo(parsed.ContentInfo) -> Sign -> pkcs9.TimestampAndMarshal with a
+//	           timestamper that returns a parsed foreign token                (signers/cat, authenticode)
 package c16
 
 import (
